@@ -184,7 +184,7 @@ pub fn check(case: &Case, st: &mut Stats) -> Result<(), String> {
             }
             // tree level
             let tree = |cfg: &XmlCfg, ch: &[String]| {
-                let (dom, _) = drive_xml(ModelDom::new(), cfg, ch, |_| {});
+                let (dom, _) = drive_xml(ModelDom::new(), cfg, ch, |_, _| {});
                 model_canon(&dom, DOC, CanonOpts::default())
             };
             let t0 = tree(&XmlCfg { exact_errors: false, discard_bom: false, profile: false }, ch);
@@ -257,7 +257,7 @@ pub fn run(ctx: &Ctx) -> Report {
     );
     report_known(ctx, &mut rep, &|v| replay(&ctx.strict_clone(), v));
     run_regressions(ctx, &mut rep, &|v| replay(&ctx.strict_clone(), v));
-    let out = with_stdout_silenced(|| run_random(ctx.seed, ctx.tier.pick(60_000, 3_000_000), 1500, decode, check));
+    let out = with_stdout_silenced(|| run_random(ctx.seed, ctx.tier.pick(300_000, 5_000_000), 1500, decode, check));
     rep.absorb(out);
     for l in [
         "text run >= 16 bytes (SIMD path vs scalar path)",
